@@ -22,6 +22,9 @@ CHECKS = {
  "C05": dict(tech="TLA+ L1 language machine: frame (names, count, order) tracked by Prql.tla incl. the resolver's group ordering rule; prepared-statement column names + RQ columns validated by TLC (PrqlTrace)",
     text="as C01; the verdict is on the result's column names/count/order against the specification's frame and the RQ's declared columns",
     ref="DESIGN.md section 4 C05"),
+ "C06": dict(tech="TLA+ rewrite machine over programs (Rewrite.tla: let/into/module naming, function extraction by beta-reduction, filter splitting, identity insertion) whose denotation-preservation is model-checked (RewriteMC); every reachable rewritten program replayed through prqlc+SQLite and validated by TLC (PrqlTrace)",
+    text="TLC explores the rewrite graph of each base program (every applicable site and kind, compositions up to the depth) and checks on the model that each rewrite leaves the denotation (frame, possible worlds per database instance, order) unchanged; each rewritten program is then compiled, executed and validated against that denotation, so a disagreement is the implementation's",
+    ref="DESIGN.md section 4 C06"),
  "C10": dict(tech="TLA+ L1 language machine: scope model (known frames, ambiguity, arity) in Prql.tla; every ill-formed behaviour of PrqlMC replayed; acceptance of an ill-formed program rejected by TLC (PrqlTrace)",
     text="every program the bounded model marks ill-formed (reference to a dropped column, ambiguous bare name after join, arity mismatch) must make prqlc::compile return Err; every well-formed one must compile",
     ref="DESIGN.md section 4 C10"),
